@@ -1,6 +1,7 @@
 """C17 — verdicts depend on type, shape and dtype only, so tracing equals eager."""
 import json
 import os
+import sys
 import typing
 
 os.environ.setdefault("JAX_PLATFORMS", "cpu")
@@ -483,6 +484,69 @@ def container_leaf_type_cases(out):
             out.violation(f"trace-vs-eager:container-leaf:{fn.__name__}:{sorted(bad)[0]}", f"{name}: shapes and dtypes say {want}; got {verdicts}", {"container_leaf": name})
 
 
+HOOKED_TRANSFORM_MODULE = '''import jax
+import jax.numpy as jnp
+from jaxtyping import Array, Float
+
+@jax.vmap
+def per_example_norm(x: Float[Array, "n"]) -> Float[Array, ""]:
+    return jnp.sum(x * x)
+
+@jax.vmap
+def wants_matrix(x: Float[Array, "a b"]) -> Float[Array, ""]:
+    return jnp.sum(x)
+
+@jax.jit
+@jax.vmap
+def jit_of_vmap(x: Float[Array, "n"]) -> Float[Array, "n"]:
+    return x + 1
+
+@jax.grad
+def grad_of_sum(x: Float[Array, "n"]) -> Float[Array, ""]:
+    return jnp.sum(x * x)
+
+def plain(x: Float[Array, "n"]) -> Float[Array, ""]:
+    return jnp.sum(x)
+'''
+
+
+def hooked_transform_cases(out, seed):
+    """functions of a module instrumented by the import hook that carry their OWN transformation decorators (`@jax.vmap`,
+    `@jax.grad`, `@jax.jit @jax.vmap`): the annotations describe what the function body sees (one example, not the batch),
+    so the verdict on a batch is the eager verdict on one example"""
+    import importlib
+
+    import jaxtyping
+    from common import scratch_dir
+
+    with scratch_dir("jaxverif_c17hook_") as root:
+        name = f"c17hooked_{seed}_{os.getpid()}"
+        with open(os.path.join(root, name + ".py"), "w") as fh:
+            fh.write(HOOKED_TRANSFORM_MODULE)
+        sys.path.insert(0, root)
+        old = sys.dont_write_bytecode
+        sys.dont_write_bytecode = True
+        try:
+            with jaxtyping.install_import_hook(name, "typeguard.typechecked"):
+                mod = importlib.import_module(name)
+        finally:
+            sys.dont_write_bytecode = old
+            sys.path.remove(root)
+            sys.modules.pop(name, None)
+    f32 = lambda *sh: jnp.zeros(sh, jnp.float32)  # noqa: E731
+    cases = [("vmap, per-example vector", lambda: mod.per_example_norm(f32(5, 3)), "accept"), ("vmap, per-example vector given rank-3 batch", lambda: mod.per_example_norm(f32(5, 3, 2)), "reject"),
+             ("vmap, body wants a matrix, batch of vectors", lambda: mod.wants_matrix(f32(5, 3)), "reject"), ("vmap, body wants a matrix, batch of matrices", lambda: mod.wants_matrix(f32(5, 3, 2)), "accept"),
+             ("jit of vmap", lambda: mod.jit_of_vmap(f32(4, 3)), "accept"), ("grad", lambda: mod.grad_of_sum(f32(3)), "accept"), ("grad, matrix", lambda: mod.grad_of_sum(f32(3, 2)), "reject"),
+             ("no decorator, vector", lambda: mod.plain(f32(3)), "accept"), ("no decorator, matrix", lambda: mod.plain(f32(3, 2)), "reject"),
+             ("jit applied by the caller", lambda: jax.jit(mod.plain)(f32(3)), "accept"), ("vmap applied by the caller", lambda: jax.vmap(mod.plain)(f32(5, 3)), "accept")]
+    for cname, thunk, want in cases:
+        got = classify(thunk)
+        out.case(("hooked-transform", cname), True, sample={"case": cname, "verdict": got})
+        if got != want:
+            out.violation("trace-vs-eager:hooked-transform", f"a hooked module's function ({cname}): the call is {got}, the shapes and dtypes its body sees say {want}", {"hooked_transform": cname})
+            return
+
+
 def run(tier, seed, out, drv, facts):
     rng = Rng(seed, "C17")
     thorough = tier == "thorough"
@@ -494,10 +558,13 @@ def run(tier, seed, out, drv, facts):
     directed_cases(out, rng)
     keyword_order_cases(out)
     container_leaf_type_cases(out)
+    hooked_transform_cases(out, seed)
 
 
 def replay(rep, out, drv, facts):
-    if "container_leaf" in rep:
+    if "hooked_transform" in rep:
+        hooked_transform_cases(out, 0)
+    elif "container_leaf" in rep:
         container_leaf_type_cases(out)
     elif "kworder" in rep:
         keyword_order_cases(out)
